@@ -290,15 +290,15 @@ def run_shard(shard, tier, seed):
     elif k == "status":
         from pycomm3.cip import EXTEND_CODES
         w, t, dev, d = new_driver()
-        for st in range(1, 256):
-            for ext in ([], [0x2105], [0x0204], [1, 2]):
-                for tr in TRANSPORTS:
-                    if st == 6 and tr == "connected":
-                        continue  # partial transfer for connected services is C13's three-valued case
-                    kw = dict(service=0x0E, class_code=0x99, instance=1, attribute=1, **tkw(tr))
-                    want = (tr, 0x0E, path_of(0x99, 1, 1), b"", droute if tr == "ucsend" else None)
-                    expect(rep, t, dev, d, kw, want, reply=(st, ext, b"\xde\xad"), sig=f"refused/{tr}", rp=("status", st, tuple(ext), tr))
-        rep.sample({"statuses": "1..255", "extended": "0/1/2 words"})
+        # services the library knows and object-specific ones it does not; none of them is a multi-packet service, so status 6 is a refusal too
+        for svc in (0x0E, 0x01, 0x10, 0x4B, 0x32, 0x5F, 0x7E, 0x4C):
+            for st in range(1, 256):
+                for ext in ([], [0x2105], [0x0204], [1, 2]) if svc == 0x0E else ([],):
+                    for tr in TRANSPORTS:
+                        kw = dict(service=svc, class_code=0x99, instance=1, attribute=1, **tkw(tr))
+                        want = (tr, svc, path_of(0x99, 1, 1), b"", droute if tr == "ucsend" else None)
+                        expect(rep, t, dev, d, kw, want, reply=(st, ext, b"\xde\xad"), sig=f"refused/{tr}" + ("/status6" if st == 6 else ""), rp=("status", svc, st, tuple(ext), tr))
+        rep.sample({"statuses": "1..255", "extended": "0/1/2 words", "services": "0x0E 0x01 0x10 0x4B 0x32 0x5F 0x7E 0x4C"})
     elif k == "history":
         run_history(rep, HIST_PATHS[shard[1]], tier)
         return rep
